@@ -935,6 +935,16 @@ Proof.
     + eapply after_waiting_spec; eauto.
 Qed.
 
+Lemma run_armed_spec fuel : forall ran, keeps (run_armed fuel ran).
+Proof.
+  induction fuel as [|f IH]; intros ran w0 w Q HR HQ; cbn [run_armed]; [wp_prim; apply HQ; exact HR|].
+  do 2 wp_prim. wp_case; [wp_prim; apply HQ; exact HR|].
+  assert (Hl : live w) by (eapply R_live; eassumption).
+  wp_case; [|wp_prim; apply HQ; exact HR].
+  wp_case; [wp_prim; apply HQ; exact HR|].
+  wp_prim. eapply run_action_spec; [exact HR | exact Hl |]. intros r w2 H2. destruct r; cbv beta iota; [eapply IH; eauto | apply HQ; exact H2].
+Qed.
+
 Lemma finish_step_spec x : keeps (finish_step x).
 Proof.
   intros w0 w Q HR HQ. unfold finish_step. wp_prim.
@@ -946,16 +956,18 @@ Proof.
   assert (Hk : forall next w1, R w0 w1 ->
      wp (bind get (fun w => if is_terminated w then ret tt
                             else match intr w with
-                                 | Some a => run_action a next
-                                 | None => transition next
+                                 | Some a => bind (run_action a next) (fun _ => run_armed armed_fuel (Some a))
+                                 | None => bind (transition next) (fun _ => run_armed armed_fuel None)
                                  end))
         (fun r s' => wp (bind (modify (fun w => w <| stepping := false |>)) (fun _ => set_interrupt_action None))
            (fun r2 s'' => match r2 with Ok _ => Q r s'' | Err e => Q (Err e) s'' end) s') w1).
   { intros next w1 H1. do 2 wp_prim. wp_case; [wp_prim; apply Hfin; exact H1|].
     assert (Hl : live w1) by (eapply R_live; eassumption).
     wp_case.
-    - eapply run_action_spec; [exact H1 | exact Hl |]. intros r w2 H2. apply Hfin; exact H2.
-    - eapply transition_spec; [exact H1 | destruct next; [exact Hl | exact I] |]. intros r w2 H2. apply Hfin; exact H2. }
+    - wp_prim. eapply run_action_spec; [exact H1 | exact Hl |]. intros r w2 H2. destruct r; cbv beta iota; [|apply Hfin; exact H2].
+      eapply run_armed_spec; [exact H2|]. intros r3 w3 H3. apply Hfin; exact H3.
+    - wp_prim. eapply transition_spec; [exact H1 | destruct next; [exact Hl | exact I] |]. intros r w2 H2. destruct r; cbv beta iota; [|apply Hfin; exact H2].
+      eapply run_armed_spec; [exact H2|]. intros r3 w3 H3. apply Hfin; exact H3. }
   wp_prim. destruct x.
   - wp_prim. apply Hk; exact HR.
   - wp_prim. apply Hk; exact HR.
